@@ -383,7 +383,8 @@ class Ctx:
 
     # ---- correspondence
     def stream(self, name, sub, cases, harness_args=(), driver_args=None, driver_sub=None,
-               monitor=None, canon=None, timeout=600, nontrivial=None, classify=None, model=True, shrink=True, spec_exact=False, removable=None):
+               monitor=None, canon=None, timeout=600, nontrivial=None, classify=None, model=True, shrink=True, spec_exact=False, removable=None,
+               confirm=0):
         """cases: list of (case_id:str, [lines]). Runs the real code (harness `sub`) and, when
         model=True, the Lean model (driver `driver_sub` or `sub`) on the same input and compares per case.
         monitor(case_lines, real_out_lines) -> None | str is a model-free oracle for the property.
@@ -391,7 +392,11 @@ class Ctx:
         (e.g. which routes received a line): a disagreement on such a stream is then a failing input for the
         property itself (expected = what the proved model requires), not merely a broken correspondence.
         nontrivial(case_lines, real_out_lines) -> hashable key | None counts distinct non-trivial cases.
-        classify(case_lines, real_out_lines) -> str feeds the outcome histogram."""
+        classify(case_lines, real_out_lines) -> str feeds the outcome histogram.
+        confirm=N (streams whose real side depends on wall-clock time: client timeouts, sleeps): a case that disagrees with the model
+        is run again on its own, up to N times, and counts only if the disagreement shows again at least once. On a loaded machine
+        a request can exceed its client timeout by itself; that is a fault the environment is allowed to inject, not a failing
+        input, and it does not repeat in isolation. Reported in the stream's statistics as `unconfirmed`."""
         t0 = time.time()
         inp = "".join("#case %s\n%s\n" % (cid, "\n".join(lines)) for cid, lines in cases)
         rc_g, so_g, se_g = run_side(HARNESS, [sub] + list(harness_args), inp, timeout)
@@ -438,6 +443,18 @@ class Ctx:
                 m = modelout.get(cid)
                 mc = canon(m) if (canon and m is not None) else m
                 if mc != rc_:
+                    if confirm and m is not None:
+                        again = False
+                        for _ in range(confirm):
+                            rc2, so2, _se2 = run_side(HARNESS, [sub] + list(harness_args), "#case s\n" + "\n".join(lines) + "\n", min(timeout, 120))
+                            r2 = split_cases(so2).get("s")
+                            if r2 is None or (canon(r2) if canon else r2) != mc:
+                                again = True
+                                r = r2 if r2 is not None else r
+                                break
+                        if not again:
+                            stat["unconfirmed"] = stat.get("unconfirmed", 0) + 1
+                            continue
                     stat["diffs"] += 1
                     if firstdiff is None:
                         firstdiff = (cid, lines, r, m, None)
